@@ -132,6 +132,24 @@ def gen_bstr(ctx):
     return cases
 
 
+def gen_bstr_add(ctx):
+    """the expanding append family against its abstract type: result = dest ++ src for every capacity (impl-only ground truth)"""
+    cases, want = [], []
+    r = ctx.rng
+    top = 40 if ctx.thorough() else 26
+    for size in list(range(0, 14)) + [16, 24]:
+        for ld in sorted(set([0, 1, size // 2, max(0, size - 1), size])):
+            if ld > size:
+                continue
+            d = bytes((0x61 + i % 3) for i in range(ld))
+            for ls in range(0, top):
+                s = bytes((0x78 + i % 2) for i in range(ls))
+                for fn in ("add", "addb", "addc"):
+                    cases.append("ba\t%s\t%d\t%s\t%s" % (fn, size, vf.hexs(d), vf.hexs(s)))
+                    want.append((d + s).hex() if d + s else "-")
+    return cases, want
+
+
 def gen_num(ctx):
     cases = []
     bounds = [2**31, 2**32, 2**63, 2**64, 100, 999, 1000, 65535, 65536]
@@ -238,6 +256,21 @@ def check(ctx):
             f = c.split("\t")
             keys.add((f[0], f[1] if f[0] == "b" else "", o if f[0] == "b" else hash(o) % 4096))
         vf.sample(ctx, {"suite": name, "case": cases[len(cases) // 2], "result": model[len(cases) // 2] if model else None})
+    # the expanding append family (bstr_add_mem / bstr_add / bstr_add_c): library against the abstract type directly (result = dest ++ src for
+    # every capacity; no model function needed: the specification is concatenation)
+    acases, awant = gen_bstr_add(ctx)
+    exe = vf.impl_driver(ctx, "san")
+    aout, abad = vf.run_sharded(ctx, exe, acases, "S-bstr-add")
+    ctx.cov["evaluations"] += len(acases)
+    if abad:
+        vf.report_crash(ctx, "S-bstr-add", acases, abad)
+    aout, _ = vf.strip_traces(aout)
+    amm = [i for i, (o, w) in enumerate(zip(aout, awant)) if o.strip() != w]
+    ctx.cov["suites"]["S-bstr-add(impl vs concatenation)"] = {"cases": len(acases), "mismatches": len(amm)}
+    for i in amm[:2]:
+        vf.violation(ctx, "S-bstr-add-%d" % i, {"kind": "implementation-differs-from-abstract-type", "suite": "S-bstr-add", "case": acases[i],
+                                                "implementation": aout[i], "abstract_model": awant[i] + "   (dest ++ src)",
+                                                "theorem": "the abstract type of a byte string: append is concatenation, whatever the capacity"})
     vf.note_distinct(ctx, keys)
     ctx.cov["exhaustive"] = False
     rule = ("S-list: all op sequences over {push,pop,shift,get0,get2,replace1,size,clear} up to depth %d from capacities 1..4 plus random "
